@@ -87,12 +87,29 @@ class Func(object):
     def __init__(self, index, module, node, cls=None):
         self.index = index
         self.module = module
-        self.node = node
+        self.raw_node = node
+        self._expanded = None
         self.cls = cls
         self.name = node.name
         self.qualname = (cls.qualname if cls else module.name) + '.' + node.name
         self.decorators = [index.resolve_expr(module, _deco_head(d)) for d in node.decorator_list]
         self.decorator_nodes = list(node.decorator_list)
+
+    @property
+    def node(self):
+        """The definition with calls to *new* private helpers (not in sa/known_functions.txt) replaced by their bodies;
+        identical to ``raw_node`` on the tree the rule tables were frozen on (see sa/inline.py)."""
+        if self._expanded is None:
+            if self.index.known_functions is None:
+                self._expanded = self.raw_node
+            else:
+                from .inline import Inliner
+                self._expanded = self.raw_node      # guards against recursion while expanding
+                try:
+                    self._expanded = Inliner(self.index).expand(self)
+                except RecursionError:
+                    self._expanded = self.raw_node
+        return self._expanded
 
     @property
     def construct(self):
@@ -102,14 +119,14 @@ class Func(object):
 
     @property
     def where(self):
-        return '%s:%d' % (self.module.relpath, self.node.lineno)
+        return '%s:%d' % (self.module.relpath, self.raw_node.lineno)
 
     def has_decorator(self, *names):
         return any(d in names or (d or '').rpartition('.')[2] in names for d in self.decorators)
 
     @property
     def params(self):
-        a = self.node.args
+        a = self.raw_node.args
         return [x.arg for x in a.posonlyargs + a.args]
 
     @property
@@ -302,6 +319,11 @@ class Index(object):
         self.classes = {}
         self.functions = {}
         self.consulted = set()
+        self.known_functions = None
+        kf = os.path.join(os.path.dirname(os.path.abspath(__file__)), 'known_functions.txt')
+        if os.path.exists(kf) and not os.environ.get('VERIF_NO_INLINE'):
+            with open(kf) as fh:
+                self.known_functions = set(l.strip() for l in fh if l.strip() and not l.startswith('#'))
         self._load()
 
     # -- loading -------------------------------------------------------------
